@@ -250,9 +250,12 @@ def ical_dt(wall):
     return (EPOCH + timedelta(seconds=wall)).strftime('%Y%m%dT%H%M%S')
 
 
-def ical_dur(s):
-    sign = '-' if s < 0 else ''
+def ical_dur(s, plus=False, weeks=False):
+    """RFC 5545 3.3.6 dur-value: optional sign (an explicit plus is allowed), weeks form for whole weeks"""
+    sign = '-' if s < 0 else ('+' if plus else '')
     s = abs(s)
+    if weeks and s and s % 604800 == 0:
+        return f'{sign}P{s // 604800}W'
     d, r = divmod(s, 86400)
     h, r = divmod(r, 3600)
     m, sec = divmod(r, 60)
@@ -291,7 +294,7 @@ def rand_line(rng, name):
             params += f';TZID={ZONES[arg[1]]}'
             txt = ical_dt(arg[2])
     elif k == 'T':
-        txt = ical_dur(arg[1])
+        txt = ical_dur(arg[1], plus=rng.random() < 0.3, weeks=rng.random() < 0.5)
     else:
         if arg[1] % 2 == 0:
             txt = '010203'
@@ -326,6 +329,31 @@ def parse_case(c, lines):
         name = ln.split(';')[0].split(':')[0]
         fields.append(enc_op(('a', name, arg), build(arg)))
     return fields, record(c, comp, 'ok'), comp, text
+
+
+def check_parsed_matches_text(ctx, c, lines, got, where):
+    """the state produced by parsing holds exactly the values the text gives: every line whose value is of one of
+    the RFC's forms is stored, in text order, as the Python value it denotes (so that start/end/duration are
+    derived from what the text says and not from a subset of it)"""
+    def bad(kind, detail):
+        ctx.violation(kind, where, detail)
+    valid = [(ln.split(';')[0].split(':')[0], arg) for ln, arg in lines if arg is not None]
+    if got is None:
+        if len(valid) == len(lines):
+            bad('valid-text-rejected', 'from_ical raised ValueError although every line holds a value of an RFC 5545 form: '
+                + ' | '.join(ln for ln, _ in lines))
+        return
+    comp = got[2]
+    for name in KEYS:
+        want = [canon(build(arg)) for n, arg in valid if n == name]
+        raw = comp.get(name)
+        vals = [] if raw is None else (raw if isinstance(raw, list) else [raw])
+        have = []
+        for v in vals:
+            have.append(canon(v.dt) if hasattr(v, 'dt') else f'?{type(v).__name__}')
+        if have != want:
+            bad('parsed-state-differs-from-text', f'{name}: the text gives {want}, the parsed component holds {have}; '
+                + ' | '.join(ln for ln, _ in lines))
 
 
 # ---------------------------------------------------------------- correspondence
@@ -566,6 +594,11 @@ def oracle(ctx):
                 for _ in range(ctx.vol(300)):
                     lines = rand_parsed(ctx.rng, c)
                     got = parse_case(c, lines)
+                    kind = {'E': 'VEVENT', 'T': 'VTODO', 'J': 'VJOURNAL'}[c]
+                    text0 = '\r\n'.join([f'BEGIN:{kind}'] + [ln for ln, _ in lines] + [f'END:{kind}', ''])
+                    check_parsed_matches_text(ctx, c, lines, got, {
+                        'cls': c, 'prov': prov, 'ics': text0,
+                        'lines': [[ln, None if a is None else enc_arg(a, build(a))] for ln, a in lines]})
                     if got is None:
                         continue
                     _, _, comp, text = got
@@ -599,7 +632,13 @@ def replay(ctx, data):
     inp = data['input']
     try:
         use(inp.get('prov', 'z'))
-        if 'ics' in inp:
+        if 'lines' in inp:
+            lines = [(ln, None if a is None else dec_arg(a)) for ln, a in inp['lines']]
+            got = parse_case(inp['cls'], lines)
+            check_parsed_matches_text(ctx, inp['cls'], lines, got, inp)
+            if got is not None:
+                check_state(ctx, inp['cls'], got[2], inp)
+        elif 'ics' in inp:
             comp = cls_of(inp['cls']).from_ical(inp['ics'])
             check_state(ctx, inp['cls'], comp, inp)
         else:
